@@ -191,6 +191,11 @@ void h_ts_sort(void)
         for (uint64_t j = 0; j < n1; j++) found |= (c.ds.xa[j] == ts.ds.xa[i] && c.ta[j] == ts.ta[i] && c.wa[j] == ts.wa[i]);
         sym_assert(found, "sorting keeps every sample together with its own time and weight");
     }
+    /* a copy of the value-sorted series is exact too (the weight of the largest value now sits in the last slot) */
+    struct cmb_timeseries c2 = { 0 };
+    sym_assert(cmb_timeseries_copy(&c2, &c) == n1, "copy of a sorted series returns the count");
+    for (uint64_t i = 0; i < n1; i++) sym_assert(c2.ds.xa[i] == c.ds.xa[i] && c2.ta[i] == c.ta[i] && c2.wa[i] == c.wa[i], "copy of a value-sorted time series is element-wise exact");
+    cmb_timeseries_terminate(&c2);
     cmb_timeseries_sort_t(&c);
     for (uint64_t i = 0; i + 1 < n1; i++) sym_assert(c.ta[i] <= c.ta[i + 1], "sort_t output is ascending in time");
     /* a copy can be extended: the arrays of the copy have room for what its bookkeeping says */
